@@ -238,4 +238,231 @@ theorem highestEquiv_mono {v w : Nat} (hvw : v ≤ w) (hw : w < cap h) :
     exact Nat.le_of_eq (highestEquiv_of_idx wf hv hw (by omega))
 
 end
+
+/-! ### the counts array is the multiplicity function of the accepted values -/
+
+/-- counts index of an `int64` value, as a natural number -/
+def cix (h : Hist) (v : Int) : Nat := (countsIndexFor h v.toNat).toNat
+
+/-- the counts array after recording `vs`, starting from `c` -/
+def cnts (h : Hist) (c : List Int) (vs : List Int) : List Int :=
+  vs.foldl (fun c v => if accepts h v then c.modify (cix h v) (· + 1) else c) c
+
+theorem recordAll_eq (h : Hist) (vs : List Int) : ∀ (c : List Int) (t : Int),
+    recordAll { h with counts := c, total := t } vs =
+      { h with counts := cnts h c vs, total := t + ((vs.filter (accepts h)).length : Int) } := by
+  induction vs with
+  | nil => intro c t; simp [recordAll, cnts]
+  | cons v vs ih =>
+    intro c t
+    have hstep : recordAll { h with counts := c, total := t } (v :: vs) =
+        recordAll ((recordValue { h with counts := c, total := t } v).getD { h with counts := c, total := t }) vs := by
+      simp [recordAll]
+    rw [hstep]
+    have hacc : (recordValue { h with counts := c, total := t } v).isSome = accepts h v :=
+      recordValues_isSome _ v 1
+    by_cases ha : accepts h v = true
+    · have hv : ¬ v < 0 := by
+        simp only [accepts, Bool.and_eq_true, decide_eq_true_eq] at ha; omega
+      have hi : ¬ (countsIndexFor h v.toNat < 0 ∨ (h.countsLen : Int) ≤ countsIndexFor h v.toNat) := by
+        simp only [accepts, Bool.and_eq_true, decide_eq_true_eq] at ha; omega
+      have hr : recordValue { h with counts := c, total := t } v =
+          some { h with counts := c.modify (cix h v) (· + 1), total := t + 1 } := by
+        unfold recordValue recordValues
+        rw [if_neg hv]
+        show (if countsIndexFor h v.toNat < 0 ∨ (h.countsLen : Int) ≤ countsIndexFor h v.toNat then none else _) = _
+        rw [if_neg hi]; rfl
+      rw [hr, Option.getD_some, ih]
+      simp only [cnts, List.foldl_cons, ha, if_true, List.filter_cons, List.length_cons]
+      congr 1; push_cast; omega
+    · have hn : recordValue { h with counts := c, total := t } v = none := by
+        cases hx : recordValue { h with counts := c, total := t } v with
+        | none => rfl
+        | some _ => rw [hx] at hacc; simp at hacc; exact absurd hacc ha
+      rw [hn, Option.getD_none, ih]
+      simp only [cnts, List.foldl_cons, ha, List.filter_cons]
+      simp
+
+theorem cnts_length (h : Hist) (vs : List Int) : ∀ c, (cnts h c vs).length = c.length := by
+  induction vs with
+  | nil => intro c; rfl
+  | cons v vs ih =>
+    intro c
+    simp only [cnts, List.foldl_cons]
+    by_cases ha : accepts h v = true
+    · simp only [ha, if_true]; exact (ih _).trans (List.length_modify _ _ _)
+    · simp only [ha]; exact ih c
+
+theorem accepts_cix_lt {h : Hist} {v : Int} (ha : accepts h v = true) : cix h v < h.countsLen := by
+  simp only [accepts, Bool.and_eq_true, decide_eq_true_eq] at ha
+  unfold cix; omega
+
+/-- entry `i` of the counts array counts the accepted values with index `i` -/
+theorem cnts_getD (h : Hist) (vs : List Int) (i : Nat) : ∀ c, c.length = h.countsLen →
+    (cnts h c vs).getD i 0 = c.getD i 0 + ((vs.countP fun v => accepts h v && cix h v == i : Nat) : Int) := by
+  induction vs with
+  | nil => intro c _; simp [cnts]
+  | cons v vs ih =>
+    intro c hc
+    simp only [cnts, List.foldl_cons, List.countP_cons]
+    by_cases ha : accepts h v = true
+    · simp only [ha, if_true, Bool.true_and]
+      have := ih (c.modify (cix h v) (· + 1)) (by rw [List.length_modify]; exact hc)
+      simp only [cnts] at this
+      rw [this]
+      have hlt := accepts_cix_lt ha
+      rw [List.getD_eq_getElem?_getD, List.getD_eq_getElem?_getD, List.getElem?_modify]
+      by_cases hi : cix h v = i
+      · subst hi
+        have : c[cix h v]? = some (c[cix h v]'(by omega)) := List.getElem?_eq_getElem (by omega)
+        simp [this]; omega
+      · have hb : (cix h v == i) = false := by simpa using hi
+        cases hci : c[i]? <;> simp [hi, hb]
+    · have hf : accepts h v = false := by simpa using ha
+      simp only [hf, Bool.false_and, Bool.false_eq_true, if_false, Nat.add_zero]
+      have := ih c hc
+      simp only [cnts] at this
+      exact this
+
+/-- prefix sums of the counts array -/
+def pre (c : List Int) (k : Nat) : Int := (c.take k).sum
+
+theorem pre_succ (c : List Int) (k : Nat) : pre c (k + 1) = pre c k + c.getD k 0 := by
+  unfold pre
+  induction c generalizing k with
+  | nil => simp
+  | cons a c ih =>
+    cases k with
+    | zero => simp
+    | succ k =>
+      simp only [List.take_succ_cons, List.sum_cons, List.getD_cons_succ]
+      rw [ih k]; omega
+
+theorem pre_all (c : List Int) {k : Nat} (hk : c.length ≤ k) : pre c k = c.sum := by
+  unfold pre; rw [List.take_of_length_le hk]
+
+/-- the prefix sum up to `k` counts the accepted values with index below `k` -/
+theorem pre_cnts (h : Hist) (vs : List Int) (k : Nat) :
+    pre (cnts h (List.replicate h.countsLen 0) vs) k =
+      ((vs.countP fun v => accepts h v && decide (cix h v < k) : Nat) : Int) := by
+  induction k with
+  | zero => simp [pre]
+  | succ k ih =>
+    rw [pre_succ, ih, cnts_getD h vs k _ (by simp)]
+    have h0 : (List.replicate h.countsLen (0 : Int)).getD k 0 = 0 := by
+      rw [List.getD_eq_getElem?_getD]
+      cases hx : (List.replicate h.countsLen (0 : Int))[k]? with
+      | none => rfl
+      | some a => simp [List.getElem?_replicate] at hx; simp [hx.2]
+    rw [h0, Int.zero_add]
+    have : ∀ l : List Int, (l.countP fun v => accepts h v && decide (cix h v < k + 1)) =
+        (l.countP fun v => accepts h v && decide (cix h v < k)) +
+        (l.countP fun v => accepts h v && cix h v == k) := by
+      intro l
+      induction l with
+      | nil => rfl
+      | cons a l ihl =>
+        simp only [List.countP_cons, ihl]
+        by_cases ha : accepts h a = true
+        · simp only [ha, Bool.true_and]
+          by_cases h1 : cix h a < k
+          · have : ¬ cix h a = k := by omega
+            simp [h1, this, show cix h a < k + 1 by omega]; omega
+          · by_cases h2 : cix h a = k
+            · simp [h2]; omega
+            · simp [h1, h2, show ¬ cix h a < k + 1 by omega]
+        · have hf : accepts h a = false := by simpa using ha
+          simp [hf]
+    rw [this]; push_cast; rfl
+
+/-! ### the iterator visits the indices in increasing order -/
+
+/-- iterator state `(b, s)` just before visiting index `j` (`H` = half the sub-bucket count) -/
+structure St (H : Nat) (b : Nat) (s : Int) (j : Nat) : Prop where
+  ix : (b : Int) * (H : Int) + s + 1 = (j : Int)
+  lo : -1 ≤ s
+  hi : s < (H : Int) * 2
+  up : 1 ≤ b → (H : Int) ≤ s
+
+theorem st_init (H : Nat) (hpos : 0 < H) : St H 0 (-1) 0 :=
+  ⟨by simp, by omega, by omega, by intro h; omega⟩
+
+/-- one step of the iterator's position arithmetic -/
+theorem st_step {H : Nat} (hpos : 0 < H) {b : Nat} {s : Int} {j : Nat} (st : St H b s j) :
+    let bs := if s + 1 ≥ ((H * 2 : Nat) : Int) then (b + 1, (H : Int)) else (b, s + 1)
+    0 ≤ bs.2 ∧ (bs.1 * H + bs.2.toNat = j) ∧ bs.2.toNat < H * 2 ∧
+    (1 ≤ bs.1 → H ≤ bs.2.toNat) ∧ St H bs.1 bs.2 (j + 1) := by
+  obtain ⟨ix, lo, hi, up⟩ := st
+  by_cases hc : s + 1 ≥ ((H * 2 : Nat) : Int)
+  · simp only [hc, if_true]
+    push_cast at hc
+    have hs : s = (H : Int) * 2 - 1 := by omega
+    refine ⟨by omega, ?_, by simp; omega, by intro _; simp, ?_⟩
+    · have : (((b + 1) * H + (H : Int).toNat : Nat) : Int) = ((j : Nat) : Int) := by
+        simp only [Int.toNat_natCast]; push_cast; rw [Int.add_mul, Int.one_mul]; omega
+      exact_mod_cast this
+    · exact ⟨by push_cast; rw [Int.add_mul, Int.one_mul]; omega, by omega, by omega, by intro _; omega⟩
+  · simp only [hc, if_false]
+    push_cast at hc
+    have h0 : 0 ≤ s + 1 := by omega
+    refine ⟨h0, ?_, by omega, ?_, ?_⟩
+    · have : ((b * H + (s + 1).toNat : Nat) : Int) = ((j : Nat) : Int) := by
+        push_cast; rw [Int.toNat_of_nonneg h0]; omega
+      exact_mod_cast this
+    · intro hb; have := up hb; omega
+    · exact ⟨by push_cast; omega, by omega, by omega, by intro hb; have := up hb; omega⟩
+
+/-- what `find?` returns on the iterator: the first index whose prefix sum reaches `rank` -/
+theorem find_iter {h : Hist} (wf : WF h) (rank : Int) (hr : rank ≤ h.total) (t : Nat)
+    (ht : t < h.countsLen) (hit : rank ≤ pre h.counts (t + 1)) :
+    ∀ (fuel b : Nat) (s : Int) (j : Nat), St (2 ^ h.halfMag) b s j → j ≤ t → t - j < fuel → pre h.counts j < rank →
+      (∀ k, j ≤ k → k < t → pre h.counts (k + 1) < rank) →
+      ∃ p, (iterFrom fuel h b s (pre h.counts j)).find? (fun p => decide (p.countTo ≥ rank)) = some p ∧
+        ∃ b' s', ValidPos h b' s' ∧ b' * 2 ^ h.halfMag + s' = t ∧ p.valueFrom = valueFromIndex h b' s' := by
+  intro fuel
+  induction fuel with
+  | zero => intro b s j _ _ hf; omega
+  | succ fuel ih =>
+    intro b s j st hjt hf hlt hbefore
+    obtain ⟨h0, hix, hs2, hup, st'⟩ := st_step (Nat.two_pow_pos _) st
+    unfold iterFrom
+    rw [if_neg (by omega)]
+    dsimp only
+    rw [wf.subCount_eq, wf.halfCount_eq, show (2 : Nat) ^ (h.halfMag + 1) = 2 ^ h.halfMag * 2 from Nat.pow_succ ..]
+    -- name the updated position
+    generalize hbs : (if s + 1 ≥ ((2 ^ h.halfMag * 2 : Nat) : Int) then (b + 1, ((2 ^ h.halfMag : Nat) : Int)) else (b, s + 1)) = bs at *
+    obtain ⟨b1, s1⟩ := bs
+    simp only at h0 hix hs2 hup st' ⊢
+    rw [← show (2 : Nat) ^ (h.halfMag + 1) = 2 ^ h.halfMag * 2 from Nat.pow_succ ..] at hs2
+    have hb1 : b1 < h.bucketCount := by
+      have hcl := wf.countsLen_eq
+      have hpos : 0 < 2 ^ h.halfMag := Nat.two_pow_pos _
+      rcases Nat.eq_zero_or_pos b1 with hz | hp
+      · have := wf.bucket_pos; omega
+      · have hge := hup hp
+        have h1 : b1 * 2 ^ h.halfMag + 2 ^ h.halfMag ≤ t := by omega
+        rw [hcl] at ht
+        apply Nat.lt_of_mul_lt_mul_right (a := 2 ^ h.halfMag)
+        have : (b1 + 1) * 2 ^ h.halfMag < (h.bucketCount + 1) * 2 ^ h.halfMag := by
+          rw [Nat.add_mul, Nat.one_mul]; omega
+        rw [Nat.add_mul, Nat.add_mul] at this; omega
+    rw [if_neg (by omega)]
+    have hcount : getCountAt h b1 s1.toNat = h.counts.getD j 0 := by
+      unfold getCountAt countsIndex
+      simp only [Nat.shiftLeft_eq, wf.halfCount_eq]
+      have e : (((b1 + 1) * 2 ^ h.halfMag : Nat) : Int) + ((s1.toNat : Int) - ((2 ^ h.halfMag : Nat) : Int)) = (j : Int) := by
+        rw [← hix, Nat.add_mul]; push_cast; omega
+      rw [e, if_neg (by omega)]; simp
+    simp only [List.find?_cons, hcount]
+    have hpre : pre h.counts j + h.counts.getD j 0 = pre h.counts (j + 1) := (pre_succ _ _).symm
+    rw [hpre]
+    by_cases hj : j = t
+    · subst hj
+      simp only [ge_iff_le, hit, decide_true]
+      exact ⟨_, rfl, b1, s1.toNat, ⟨hb1, hs2, hup⟩, hix, rfl⟩
+    · have hlt' : pre h.counts (j + 1) < rank := hbefore j (Nat.le_refl _) (by omega)
+      have hd : decide (pre h.counts (j + 1) ≥ rank) = false := by simp; omega
+      simp only [hd]
+      exact ih b1 s1 (j + 1) st' (by omega) (by omega) hlt' (fun k hk1 hk2 => hbefore k (by omega) hk2)
+
 end Ftdc.Hdr
